@@ -32,6 +32,8 @@ def base_case(draw, names, tier="quick"):
             "x0": draw(gen.vec(3, -1, 1)), "scale": draw(st.sampled_from([0.1, 0.4, 0.8])),
             "N": draw(st.integers(1, 12)), "M": draw(st.integers(0, 8)), "Nb": draw(st.sampled_from([0, 0, 3, 10])),
             "cfrac": draw(st.floats(0, 1)), "seed": draw(st.integers(0, 10 ** 6)),
+            # memory layout of the start vector (Fortran order is the same for vectors; non-contiguous, negative strides, read-only)
+            "layout": draw(st.sampled_from(gen.LAYOUTS)),
             # a history of warm-up and sampling phases in any order
             "phases": draw(st.one_of(st.just([]), st.lists(st.tuples(st.sampled_from(["sample", "warmup"]), st.integers(0, 4)), min_size=2, max_size=4)))}
 
@@ -74,25 +76,41 @@ def conj_posterior(c, approx=False):
     return D.JointDistribution(x, s)(x=xv)
 
 
+STARTS = []     # (array handed to a sampler as its start, copy of its values) of the current case
+
+
+def start(c, x0):
+    """the start vector in the case's memory layout; remembered so that the caller's array can be compared afterwards"""
+    arr = gen.relayout(x0, c.get("layout", "plain"))
+    STARTS.append((arr, np.array(arr, dtype=float, copy=True)))
+    return arr
+
+
+def starts_unaltered():
+    for arr, vals in STARTS:
+        require(maxdiff(arr, vals) == 0, "the sampler altered the array that was passed as its initial point", passed=vals, now=np.array(arr))
+    del STARTS[:]
+
+
 def make_exp(c, callback=None):
     import cuqi
     E = cuqi.experimental.mcmc
     name, n = c["sampler"], c["n"]
     x0 = A(c["x0"])[:n]
     if name in ("MH", "CWMH"):
-        return getattr(E, name)(smooth_target(c), scale=c["scale"], initial_point=x0.copy(), callback=callback)
+        return getattr(E, name)(smooth_target(c), scale=c["scale"], initial_point=start(c, x0), callback=callback)
     if name in ("ULA", "MALA"):
-        return getattr(E, name)(smooth_target(c), scale=c["scale"] * 0.2, initial_point=x0.copy(), callback=callback)
+        return getattr(E, name)(smooth_target(c), scale=c["scale"] * 0.2, initial_point=start(c, x0), callback=callback)
     if name == "NUTS":
-        return E.NUTS(smooth_target(c), initial_point=x0.copy(), max_depth=4, callback=callback)
+        return E.NUTS(smooth_target(c), initial_point=start(c, x0), max_depth=4, callback=callback)
     if name == "PCN":
-        return E.PCN(linear_posterior(c), scale=c["scale"], initial_point=x0.copy(), callback=callback)
+        return E.PCN(linear_posterior(c), scale=c["scale"], initial_point=start(c, x0), callback=callback)
     if name == "LinearRTO":
-        return E.LinearRTO(linear_posterior(c), initial_point=x0.copy(), callback=callback)
+        return E.LinearRTO(linear_posterior(c), initial_point=start(c, x0), callback=callback)
     if name == "RegularizedLinearRTO":
         return E.RegularizedLinearRTO(linear_posterior(c, "reg"), initial_point=np.abs(x0), stepsize=0.05, maxit=30, callback=callback)
     if name == "UGLA":
-        return E.UGLA(linear_posterior(c, "lmrf"), initial_point=x0.copy(), callback=callback)
+        return E.UGLA(linear_posterior(c, "lmrf"), initial_point=start(c, x0), callback=callback)
     if name == "Conjugate":
         return E.Conjugate(conj_posterior(c), callback=callback)
     if name == "ConjugateApprox":
@@ -108,17 +126,17 @@ def make_leg(c, callback=None):
     name, n = c["sampler"], c["n"]
     x0 = A(c["x0"])[:n]
     if name in ("MH", "CWMH"):
-        return getattr(L, name)(smooth_target(c), scale=c["scale"], x0=x0.copy(), callback=callback)
+        return getattr(L, name)(smooth_target(c), scale=c["scale"], x0=start(c, x0), callback=callback)
     if name in ("ULA", "MALA"):
-        return getattr(L, name)(smooth_target(c), scale=c["scale"] * 0.2, x0=x0.copy(), callback=callback)
+        return getattr(L, name)(smooth_target(c), scale=c["scale"] * 0.2, x0=start(c, x0), callback=callback)
     if name == "NUTS":
-        return L.NUTS(smooth_target(c), x0=x0.copy(), max_depth=4, adapt_step_size=0.05, callback=callback)
+        return L.NUTS(smooth_target(c), x0=start(c, x0), max_depth=4, adapt_step_size=0.05, callback=callback)
     if name == "pCN":
-        return L.pCN(linear_posterior(c), scale=c["scale"], x0=x0.copy(), callback=callback)
+        return L.pCN(linear_posterior(c), scale=c["scale"], x0=start(c, x0), callback=callback)
     if name == "LinearRTO":
-        return L.LinearRTO(linear_posterior(c), x0=x0.copy(), callback=callback)
+        return L.LinearRTO(linear_posterior(c), x0=start(c, x0), callback=callback)
     if name == "UGLA":
-        return L.UGLA(linear_posterior(c, "lmrf"), x0=x0.copy(), callback=callback)
+        return L.UGLA(linear_posterior(c, "lmrf"), x0=start(c, x0), callback=callback)
     raise ValueError(name)
 
 
@@ -146,6 +164,7 @@ def state_equal(a, b):
 # ----------------------------------------------------------------------------- experimental samplers
 
 def run_exp(c, rec):
+    del STARTS[:]
     name = c["sampler"]
     N, M, Nb = c["N"], c["M"], c["Nb"]
     cpos = int(round(c["cfrac"] * N))
@@ -246,13 +265,16 @@ def run_exp(c, rec):
         require(state_equal(sA.get_state(), st_fresh), f"{name}: reinitialize() does not return the sampler to the state it was constructed with",
                 after=str(sA.get_state()["state"])[:400], fresh=str(st_fresh["state"])[:400])
         require(chain_of(sA).size == 0, "reinitialize() did not clear the history")
+        starts_unaltered()
     finally:
+        del STARTS[:]
         np.random.seed()
 
 
 # ----------------------------------------------------------------------------- legacy samplers
 
 def run_leg(c, rec):
+    del STARTS[:]
     name = c["sampler"]
     N, Nb = max(c["N"], 2), c["Nb"]
     adapt = c["M"] % 2 == 1 and name in ("MH", "CWMH", "pCN")
@@ -292,7 +314,9 @@ def run_leg(c, rec):
                     require(maxdiff(X[:, i - Nb], smp) == 0, f"legacy {name} (sample_adapt): stored chain entry differs from the callback state", index=i)
             if Nb == 0:
                 require(maxdiff(X[:, 0], x0) == 0, f"legacy {name} (sample_adapt): the chain does not begin with the initial point")
+        starts_unaltered()
     finally:
+        del STARTS[:]
         np.random.seed()
 
 
